@@ -70,6 +70,10 @@ func (self Error) Error() string {
 }
 
 func (self *_parser) error(place interface{}, msg string, msgValues ...interface{}) *Error {
+	if self.tooDeep {
+		// The parse was abandoned because of the nesting limit; that error has been recorded.
+		return self.errors[len(self.errors)-1]
+	}
 	idx := file.Idx(0)
 	switch place := place.(type) {
 	case int:
